@@ -301,6 +301,16 @@ Proof.
     destruct (vm_stmts _ _ _ _ _) as [[? ?] ?]. injection V as _ V. subst res. discriminate.
 Qed.
 
+(* in particular: a type expression denotes after a rejected input what it denoted before it
+   (a named type or class that only the rejected input declared stays undefined) *)
+Corollary rollback_types : forall st inp st1 x,
+  incr_step true st inp = (st1, Rejected) ->
+  resolve_in (c_tdefs (i_c st1)) (c_classes (i_c st1)) x = resolve_in (c_tdefs (i_c st)) (c_classes (i_c st)) x.
+Proof.
+  intros st inp st1 x H. pose proof (rollback st inp st1 H) as V. unfold visible in V.
+  injection V as _ _ _ _ Ht Hn _ _ _. rewrite Ht, Hn. reflexivity.
+Qed.
+
 Lemma check_source_vis : forall fx s1 s2 inp,
   c_meths s1 = c_meths s2 -> c_consts s1 = c_consts s2 -> c_locals s1 = c_locals s2 -> c_comp s1 = c_comp s2 ->
   c_tdefs s1 = c_tdefs s2 -> c_classes s1 = c_classes s2 ->
